@@ -5,7 +5,8 @@
         finding 2),
       - has a hash under which no valid delivery arrives (no poisoning:
         finding 1),
-      - is nobody's parent (no block is attached through it: findings 1-3).
+      - is nobody's parent (no block is indexed or attached through it:
+        findings 1 and 2).
     Such blocks may arrive on any path, before or after their parents, wait in
     the orphan pool in front of valid blocks, be executed and fail, or stay
     unexecuted side blocks.  The run over the whole history and the run over
